@@ -43,8 +43,22 @@ pub struct PanicInfo {
 
 impl PanicInfo {
     pub fn signature(&self) -> String {
-        let m: String = self.message.chars().take(100).collect();
-        format!("{} {}", self.site, m.replace('\n', " "))
+        // numbers inside the message vary from case to case (lengths, indices): normalise them so
+        // that one defect has one signature; the site keeps its line number
+        let mut m = String::new();
+        let mut in_digits = false;
+        for c in self.message.chars().take(120) {
+            if c.is_ascii_digit() {
+                if !in_digits {
+                    m.push('N');
+                }
+                in_digits = true;
+            } else {
+                in_digits = false;
+                m.push(if c == '\n' { ' ' } else { c });
+            }
+        }
+        format!("{} {}", self.site, m)
     }
 }
 
